@@ -1,0 +1,41 @@
+//go:build verif
+
+package vgirpc
+
+// Verification hooks for property C03 (no client-supplied bytes can crash the
+// server or abort an HTTP exchange). Add-only; compiled only with -tags verif.
+//
+// Only constants: the metadata keys and reserved method names the dispatch
+// decision trees branch on, the request-version value ReadRequest insists on,
+// and the state-token envelope bounds openToken checks before slicing. The
+// models in coq/Model/C03.v are stated over these names, so renaming a key or
+// changing a bound re-checks the proofs.
+
+func init() {
+	verifConstProviders = append(verifConstProviders, func() []VerifConst {
+		return []VerifConst{
+			verifBytes("c03_meta_method", MetaMethod),
+			verifBytes("c03_meta_request_version", MetaRequestVersion),
+			verifBytes("c03_request_version", ProtocolVersion),
+			verifBytes("c03_meta_log_level", MetaLogLevel),
+			verifBytes("c03_meta_location", MetaLocation),
+			verifBytes("c03_meta_shm_offset", MetaShmOffset),
+			verifBytes("c03_meta_shm_length", MetaShmLength),
+			verifBytes("c03_meta_shm_segment_name", MetaShmSegmentName),
+			verifBytes("c03_meta_shm_segment_size", MetaShmSegmentSize),
+			verifBytes("c03_meta_stream_state", MetaStreamState),
+			verifBytes("c03_meta_call_state", MetaCallState),
+			verifBytes("c03_meta_cancel", MetaCancel),
+			verifBytes("c03_method_describe", "__describe__"),
+			verifBytes("c03_method_transport_options", "__transport_options__"),
+			verifBytes("c03_method_upload_url", UploadURLMethod),
+			verifBytes("c03_arrow_content_type", arrowContentType),
+			verifBytes("c03_exc_not_implemented", VerifExceptionType(&MethodNotImplementedError{Method: "m"})),
+			verifNum("c03_token_min_len", stateTokenMinLen),
+			verifNum("c03_token_nonce_len", stateTokenNonceLen),
+			verifNum("c03_token_tag_len", stateTokenTagLen),
+			verifNum("c03_cursor_version", cursorTokenVersion),
+			verifNum("c03_call_version", callTokenVersion),
+		}
+	})
+}
